@@ -25,7 +25,7 @@ TRUSTED = ["CPython binds a call to a signature without *args/**kwargs as Model/
            "the hand-written equivalent dataclass of props/C20.py `_eq_source` is the 'equivalent dataclass' of the property"]
 ASSUMPTIONS = ["signatures have no *args/**kwargs parameter and no function-valued default",
                "default overrides given to config_for are hashable immutable values",
-               "unannotated parameters either are ignored, or carry an int/float/str default (type inference), or are required "
+               "unannotated parameters either are ignored, or carry a bool/int/float/str default or a tuple of such (type inference), or are required "
                "(config_for then skips them with a warning: the property is silent about those)"]
 
 NAMES = ["a", "b", "c", "d", "e", "x", "y", "lr", "flag", "cfg", "opt", "items", "mode", "w", "k_1"]
@@ -43,6 +43,8 @@ TYPES = {
     "fdc": ("FCfg", ["FCfg()", "FCfg(m=9)"], [], []),
     "none": (None, ["3", "'k'", "2.5"], [["8"], ["txt"]], []),
 }
+# un-annotated parameters of a callable given to config_for: the field type is inferred from the default
+CF_UNTYPED_DEFAULTS = ["3", "'k'", "2.5", "True", "False", "True", "False", "(True, 2)", "(1, 2.5)", "('a', False)", "(False, True)", "(7,)"]
 MUTABLE_DEFAULTS = {"list": ["[1, 2]", "[]"], "dc": ["Cfg()", "Cfg(n=5)"]}
 ANN_COQ = {"int": "AInt", "float": "AFloat", "str": "AStr", "bool": "ABool", "list": "AList", "opt": "AOpt",
            "enum": "AEnum", "dc": "ADc", "fdc": "ADc", "none": "ANone"}
@@ -52,7 +54,7 @@ NESTED = {"dc": [("n", "int", ["7", "11"]), ("s", "str", ["q", "rs"])], "fdc": [
 PRELUDE = '''
 import enum, functools
 from dataclasses import dataclass, field
-from typing import Any, List, Optional
+from typing import Any, List, Optional, Tuple
 import simple_parsing as sp
 
 class Color(enum.Enum):
@@ -103,6 +105,8 @@ def _gen_sig(rng, mode, bool_rate):
                 ty = "int"
             used_nested.add(ty)
         has_default = (i >= cut) if kind != "ko" else rng.random() < 0.6
+        if mode == "cf" and has_default and kind != "po" and ty != "bool" and rng.random() < 0.14:
+            ty = "none"
         default, mut = None, False
         if has_default and ty == "dc" and rng.random() < 0.7:
             ty = "fdc" if "fdc" not in used_nested else "int"
@@ -110,6 +114,8 @@ def _gen_sig(rng, mode, bool_rate):
         if has_default:
             if ty in MUTABLE_DEFAULTS and (ty == "dc" or rng.random() < 0.08):
                 default, mut = rng.choice(MUTABLE_DEFAULTS[ty]), True
+            elif ty == "none" and mode == "cf":
+                default = rng.choice(CF_UNTYPED_DEFAULTS)
             else:
                 default = rng.choice(TYPES[ty][1])
         params.append(dict(name=name, kind=kind, ty=ty, default=default, mut=mut))
@@ -119,7 +125,16 @@ def _gen_sig(rng, mode, bool_rate):
 def _opt_group(rng, p, bad=False):
     """One option occurrence for parameter p (a list of tokens), or the groups of a nested dataclass."""
     name, ty = p["name"], p["ty"]
-    if ty == "bool":
+    ety = p.get("ety")
+    if ety is not None and ety != "DBool":
+        elem = {"DInt": (["7", "21"], "x1"), "DFloat": (["2.5", "4"], "abc"), "DStr": (["zz", "w_1"], None),
+                "DBool": (["true", "false", "1", "no"], "maybe")}
+        kinds = ety if isinstance(ety, list) else [ety]
+        toks = [rng.choice(elem[k][0]) for k in kinds]
+        if bad and elem[kinds[0]][1]:
+            toks[0] = elem[kinds[0]][1]
+        return [[f"--{name}"] + toks]
+    if ty == "bool" or ety == "DBool":
         return [rng.choice([[f"--{name}"], [f"--no{name}"], [f"--{name}=true"], [f"--{name}=false"], [f"--{name}", "true"],
                             [f"--{name}", "False"]] + ([[f"--{name}=maybe"]] if bad else []))]
     if ty in NESTED:
@@ -262,7 +277,8 @@ def _gen_cf(rng, tier):
     if rng.random() < 0.3:
         session.append(json.loads(json.dumps(r0)))
     eff = _cf_kept(params, r0)
-    argv = _gen_argv(rng, [dict(p, default=_eff_default_src(p, over)) for p in eff], [], malformed=rng.random() < 0.1)
+    argv = _gen_argv(rng, [dict(p, default=_eff_default_src(p, over), ety=_dkind(_eff_default_src(p, over)) if p["ty"] == "none" else None)
+                           for p in eff], [], malformed=rng.random() < 0.1)
     call_pos, call_kw = [], []
     supply = {"int": "41", "float": "4.5", "str": "'cs'", "bool": "True", "list": "(6, 7)", "opt": "None", "enum": "Color.GREEN",
               "dc": "Cfg(n=1)", "fdc": "FCfg(m=1)", "none": "'given'"}
@@ -305,12 +321,41 @@ def _eff_default_src(p, over):
     return p["default"]
 
 
+def _dkind(src):
+    """Kind of a default written as a literal: DBool/DInt/DFloat/DStr, a list of kinds for a tuple, DOther."""
+    import ast
+    try:
+        v = ast.literal_eval(src)
+    except Exception:
+        return "DOther"
+
+    def k(v):
+        if isinstance(v, bool):
+            return "DBool"
+        if isinstance(v, int):
+            return "DInt"
+        if isinstance(v, float):
+            return "DFloat"
+        if isinstance(v, str):
+            return "DStr"
+        if isinstance(v, tuple):
+            return [k(x) for x in v]
+        return "DOther"
+    return k(v)
+
+
+def _kind_ann(k):
+    if isinstance(k, list):
+        return "Tuple[" + ", ".join(_kind_ann(x) for x in k) + "]"
+    return {"DBool": "bool", "DInt": "int", "DFloat": "float", "DStr": "str"}[k]
+
+
 def _inferred(p, over):
-    """config_for types an unannotated parameter from its default (int/float/str literals here)."""
+    """The annotation the hand-written equivalent dataclass gives an un-annotated parameter: the builtin type of its default
+    (a bool default is a bool option), tuples element-wise."""
     if p["ty"] != "none":
         return None
-    d = _eff_default_src(p, over)
-    return "str" if d.startswith("'") else ("float" if "." in d else "int")
+    return _kind_ann(_dkind(_eff_default_src(p, over)))
 
 
 def _cf_kept(params, req):
@@ -348,6 +393,10 @@ def gen(tier, seed):
                       session=[dict(ignore=["absent"], frozen=None, over=[])] * 2, call_pos=[], call_kw=[]))
     cases.append(dict(mode="main", params=[P("x", "pk", "opt"), P("y", "pk", "int", "1")], doc=False, argv=[],
                       extra_pos=[], extra_kw=[]))
+    for argv in (["--verbose"], ["--verbose", "false", "--flags", "false", "7"], ["--steps", "3"]):
+        cases.append(dict(mode="cf", params=[P("steps", "pk", "int", "10"), P("verbose", "pk", "none", "False"),
+                                             P("flags", "pk", "none", "(True, 2)")], doc=False, argv=argv,
+                          session=[dict(ignore=["absent"], frozen=None, over=[])] * 2, call_pos=[], call_kw=[]))
     for _ in range(n_main):
         cases.append(_gen_main(rng, tier))
     for _ in range(n_main // 12):
@@ -493,7 +542,7 @@ def run_impl(cases):
             xk = {k: _ev(ns, s) for k, s in case["extra_kw"]}
             reset_simple_parsing_state()
             r = finish(outcome_of(lambda: main(f, args=list(case["argv"]))(*xp, **xk)))
-            out.append(dict(defaults=defaults, expected=expected, ncalls=len(log), call=_call(log), result=r,
+            out.append(dict(defaults=defaults, expected=expected, ncalls=len(log), call=_call(log), result=r, inferred=[],
                             xpos=[_j(v) for v in xp], xkw=[[k, _j(v)] for k, v in xk.items()]))
             continue
 
@@ -535,14 +584,27 @@ def run_impl(cases):
         expected = plain(kept, False, case["argv"])
         cp = [_ev(ns, s) for s in case["call_pos"]]
         ck = {k: _ev(ns, s) for k, s in case["call_kw"]}
-        base = dict(defaults=defaults, expected=expected, session=session_obs, overs=overs,
+        base = dict(defaults=defaults, expected=expected, session=session_obs, overs=overs, inferred=[],
                     xpos=[_j(v) for v in cp], xkw=[[k, _j(v)] for k, v in ck.items()])
         cls0 = labels[0]
         if cls0 is None:
             out.append(dict(base, fields=session_obs[0], ncalls=0, call=None, result=session_obs[0]))
             continue
         import dataclasses
+        import typing
         flds = [[fl.name, None if fl.default is dataclasses.MISSING else _j(fl.default)] for fl in dataclasses.fields(cls0)]
+
+        def ity(t):
+            if t in (bool, int, float, str):
+                return {bool: "TBool", int: "TInt", float: "TFloat", str: "TStr"}[t]
+            if typing.get_origin(t) is tuple:
+                return [ity(a) for a in typing.get_args(t)]
+            return "IFail"
+        ftypes = {fl.name: fl.type for fl in dataclasses.fields(cls0)}
+        overridden = [k for k, _ in req0["over"]]
+        base["inferred"] = [[p["name"], ity(ftypes[p["name"]])] for p in params
+                            if p["ty"] == "none" and p["default"] is not None and p["name"] in ftypes
+                            and p["name"] not in overridden]
         reset_simple_parsing_state()
         del log[:]
 
@@ -621,6 +683,10 @@ def py_spec(case, obs):
         typeable = p["ty"] != "none" or over.get(n, obs["defaults"][n]) is not None
         if n not in ig and typeable and n not in names:
             return f"no field for the non-ignored parameter {n}"
+    kinds = {p["name"]: _dkind(p["default"]) for p in params if p["ty"] == "none" and p["default"] is not None}
+    for n, t in obs["inferred"]:
+        if t != _spec_ity(kinds[n]):
+            return f"inferred type of the un-annotated parameter {n}={pnames[n]['default']} is {t}, its default is a {kinds[n]}"
     if exp[0] != "ok":
         if obs["result"] != exp or obs["call"] is not None:
             return f"the plain parse ends with {exp}, parsing the config class / calling ends with {obs['result']}"
@@ -652,10 +718,18 @@ def py_spec(case, obs):
     return None
 
 
+def _spec_ity(k):
+    if isinstance(k, list):
+        return [_spec_ity(x) for x in k]
+    return {"DBool": "TBool", "DInt": "TInt", "DFloat": "TFloat", "DStr": "TStr", "DOther": "IFail"}[k]
+
+
 def signature(case, obs, reason):
     params = case["params"]
     res = obs["result"]
     tag = "main" if case["mode"] == "main" else "config_for"
+    if reason.startswith("inferred type"):
+        return f"{tag}:wrong-inferred-type"
     if "two different classes" in reason:
         lists = any(r["ignore"][0] == "list" for r in case["session"])
         return f"{tag}-uncached:" + ("unhashable-ignore_args" if lists else "hashable-args")
@@ -722,6 +796,16 @@ def _req(req, over):
     return f"(mkreq {ig} {fr} {_kv(over)})"
 
 
+def _cdkind(k):
+    return "(DTuple " + clist([_cdkind(x) for x in k]) + ")" if isinstance(k, list) else k
+
+
+def _city(t):
+    if isinstance(t, list):
+        return "(ITuple " + clist([_city(x) for x in t]) + ")"
+    return "IFail" if t == "IFail" else f"(IB {t})"
+
+
 def to_coq(case, obs):
     ps = []
     for p in case["params"]:
@@ -738,8 +822,12 @@ def to_coq(case, obs):
             flds = outcome(["ok", clist([cpair(cstr(n), copt(cstr(d)) if d is not None else "None") for n, d in obs["fields"][1]])])
         else:
             flds = outcome(obs["fields"])
+    untyped = clist([cpair(cstr(p["name"]), _cdkind(_dkind(p["default"]))) for p in case["params"]
+                     if case["mode"] == "cf" and p["ty"] == "none" and p["default"] is not None])
+    inferred = clist([cpair(cstr(n), _city(t)) for n, t in obs.get("inferred", [])])
     return (f"mkcase {cbool(case['mode'] == 'main')} {clist(ps)} {_res_bind(obs['expected'])} "
-            f"{clist([cstr(v) for v in obs['xpos']])} {_kv(obs['xkw'])} {reqs} {sess} {flds} {call} {_res_bind(obs['result'])}")
+            f"{clist([cstr(v) for v in obs['xpos']])} {_kv(obs['xkw'])} {reqs} {sess} {flds} {call} {_res_bind(obs['result'])} "
+            f"{untyped} {inferred}")
 
 
 def shrink(case):
